@@ -408,6 +408,8 @@ from . import removals
 
 from . import vocab
 
+from . import inventory
+
 OBLIGATIONS = [
     ('C03.O1', 'status constructors', 'Predicted only from InputQueue::input (sticky prediction = predictor(newest real '
      'input) or default); Confirmed carries the stored input behind the frame equality; Disconnected carries the default.', o1),
@@ -427,4 +429,5 @@ OBLIGATIONS = [
     ('C03.M', 'must-call floor', 'the calls listed for this property in tables/must_call.json are made on every path from the entry of their function to a normal return (interprocedural must-call): a new early return, fast path or extra condition in front of one of them is reported; see rules/mustcall.py', mustcall.rule_for('C03')),
     ('C03.R', 'how map entries are written', 'every write into a map this property\'s rules rely on has the reviewed class (overwrite: the newest value for a key wins; keep-existing: the first one does) -- a local input submitted again before advancing replaces the pending one; see rules/removals.py, tables/removals.json', removals.rule_for('C03')),
     ('C03.V', 'no unreviewed condition in the pinned helpers', 'for each helper whose body this property\'s rules pin (tables/condition_terms.json), the terms its path conditions are built from (fields, parameters, call results -- no constants, operators or local names) are a subset of the reviewed vocabulary: one more `if` in front of a pinned result (a lock that may time out, "only while an endpoint is running") is reported; see rules/vocab.py', vocab.rule_for('C03')),
+    ('C03.S', 'state inventory', 'every field of the structs this property\'s rules read (tables/state.json) is known, and is written only by its reviewed writers (or helpers only they call): a new field is new state across calls -- a cache, a flag, a stored deadline -- that nothing has shown to stay in step; a new writer is a second place that resets, re-arms or moves something; see rules/inventory.py', inventory.state_rule_for('C03')),
 ]
